@@ -26,7 +26,7 @@ let key_s k = "K" ^ zs k.p_label ^ "." ^ bool_s k.p_public ^ "(" ^ items_s k.p_s
               ^ ")(" ^ String.concat ";" (List.map (sub_s k) k.p_subs) ^ ")x" ^ zs (key_expiry k) ^ "r" ^ string_of_int (List.length (key_revocations k))
 let obj_s o =
   let k = o.o_key in
-  key_s k ^ "L" ^ zs o.o_lock ^ "I" ^ bool_s (inv_key k) ^ bool_s (sorted_key k) ^ "|" ^ (if k.p_public then "-" else key_s (pubkey_of k))
+  key_s k ^ "L" ^ zs o.o_lock ^ "I" ^ bool_s (inv_key k) ^ bool_s (sorted_key k) ^ bool_s (good_key k) ^ "|" ^ (if k.p_public then "-" else key_s (pubkey_of k))
 let world_s w = if w = [] then "EMPTY" else String.concat " " (List.map obj_s w)
 let w : kobj list ref = ref []
 let op_of = function
